@@ -173,6 +173,7 @@ func (r relationSlice) ToRelationIDsForUnsafe(world *World, out []relationID) []
 	start := len(out)
 	for _, rel := range r {
 		id := rel.relationIDForUnsafe(world)
+		world.storage.checkRelationComponent(id.component)
 		checkDuplicateRelation(out[start:], id.component)
 		out = append(out, id)
 	}
